@@ -14,7 +14,9 @@
 (*                   balanced and, for the i-th structural being an open,    *)
 (*                   BP find_close(2i) div 2 is the structural found by      *)
 (*                   bracket matching (the arithmetic of                     *)
-(*                   SimpleJsonIndex::find_close).                           *)
+(*                   SimpleJsonIndex::find_close);                           *)
+(*  TableIsMatch     the one-pass stack computation of all matches used by   *)
+(*                   trace validation equals the definitional matching.      *)
 EXTENDS JsonScan, TLC
 
 CONSTANTS MaxLen, Reps
@@ -68,7 +70,16 @@ BpMatches ==
                  /\ N!FindClose(str, S, S[i + 1]) = S[m]
                  /\ N!SkipValue(str, S, S[i + 1]) = S[m] + 1
 
+\* the one-pass stack table equals the definitional matching, on EVERY string
+TableIsMatch ==
+  LET M == N!MatchTable(str, S)
+  IN /\ \A j \in 1..Len(S) :
+          M[j] = (IF IsOpen(str[S[j] + 1]) THEN N!MatchIdx(str, S, j) ELSE 0)
+     /\ \A p \in 0..Len(str) :
+          /\ N!FindCloseT(str, S, M, p) = N!FindClose(str, S, p)
+          /\ N!SkipValueT(str, S, M, p) = N!SkipValue(str, S, p)
+
 \* non-vacuity witness counters are printed by the check from the state count of a
 \* second run with WellNested as a state constraint; here: at least the trivial witnesses
-Inv == IbIsStructurals /\ IndexInverse /\ BpMatches
+Inv == IbIsStructurals /\ IndexInverse /\ BpMatches /\ TableIsMatch
 =============================================================================
